@@ -102,7 +102,7 @@ def build(e, cfg, P):
         for i, c in enumerate(cells):
             trainer.register_cell(f"c{i}", c)
     # a stand-alone monitor with history (reducer state and counters)
-    mon = observe.InputMonitor(observe.CAReducer(DT, duration=2 * DT, inclusive=True), layer)
+    mon = observe.InputMonitor(observe.CAReducer(DT, duration=2 * DT, inclusive=True, inplace=syn_inplace), layer)      # 3-slot ring, in-place or not
     return layer, trainer, mon
 
 
